@@ -526,6 +526,9 @@ def run_linear_sequence(ck, rng, model, seq_key, L):
 
 
 # ----------------------------------------------------------------------------- NLS monitors
+_BYSTANDERS = {}
+
+
 def read_props(ck, s, names, regime):
     out = {}
     for name in names:
@@ -538,6 +541,13 @@ def linearisation_monitor(ck, rng, s, S, xs, us, ts, dn, regime, layout="unbatch
     """xs, us: float64 copies of the reference state/input the library was given; ts: reference time."""
     u_ = u_of(DT[dn])
     names = ("A", "B") if layout == "batch1" else ("A", "B", "C", "D", "c1", "c2")
+    if layout != "batch1" and rng.random() < 0.5:
+        # two systems of the same class used alternately: a second instance is given a reference point of its own in between -
+        # the reference point belongs to the instance
+        other = _BYSTANDERS.setdefault(id(S), GenNLS(S))
+        xo, uo = tt(rng.uniform(-1.5, 1.5, S.n), DT[dn]), tt(rng.uniform(-1.5, 1.5, S.m), DT[dn])
+        ck.call("nls_jacobian", regime, "NLS.set_refpoint", lambda: other.set_refpoint(state=xo, input=uo, t=torch.tensor(float(rng.integers(0, 25)), dtype=DT[dn])))
+        ck.mark("NLS/another-instance-linearised-in-between")
     P = read_props(ck, s, names, regime)
     shapes = {"A": (S.n, S.n), "B": (S.n, S.m), "C": (S.q, S.n), "D": (S.q, S.m), "c1": (S.n,), "c2": (S.q,)}
     M = {}
@@ -838,7 +848,7 @@ def run(ck):
     for kind in ("LTI", "LTV", "NLS"):
         ck.require(*[f"event/{kind}/{e}" for e in evs])
     ck.require("event/LTI/large-time", "event/NLS/large-time", "func/consts-generated-by-overridden-properties",
-               "NLS/re-read-after-caller-edited-the-matrices", "event/LTI/deepcopy", "event/LTV/deepcopy", "event/NLS/deepcopy")
+               "NLS/re-read-after-caller-edited-the-matrices", "NLS/another-instance-linearised-in-between", "event/LTI/deepcopy", "event/LTV/deepcopy", "event/NLS/deepcopy")
     ck.require("event/systime=tensor/kept", "event/LTI/set_refpoint(t)", "event/LTV/set_refpoint(t)", "event/NLS/set_refpoint(x,u,t)",
                "event/NLS/set_refpoint(partial)", "event/NLS/read-properties")
     ck.require("NLS/explicit-refpoint", "NLS/default-refpoint", "NLS/partial-refpoint", "NLS/read-after-further-calls",
